@@ -124,3 +124,34 @@ Theorem C20_hypotheses_satisfiable :
   /\ tc_parse (run example_run) = Some (messages_of 42 (s_filters example_run) (s_tests example_run)).
 Proof. exact example_valid. Qed.
 Print Assumptions C20_hypotheses_satisfiable.
+
+(* --------------------------------------------------------------------------------------------------------------
+   printEscaped as tools/cxx2gal.py regenerates it from TeamCityTestOutput.cpp on every run (gen/Gen_LoopC20.v; the text handed to printBuffer is the ghost output): it emits exactly the model's tc_escape of the C string at its argument, touches no existing block (the result memory is the old one followed by the scratch arrays), stays inside its buffers and terminates within a fuel just above the string length
+   -------------------------------------------------------------------------------------------------------------- *)
+From CppUVerif Require Import lib.CSem lib.CMem lib.CMemFacts lib.CEmit gen.Gen_LoopC20 C20_SrcTie.
+Local Open Scope Z_scope.
+Theorem C20_src_printEscaped_spec :
+  forall (fuel : nat) (m : memory) (out : list N) (b : nat) (o : Z) (s r : list N),
+  mem_ok m ->
+  view m (Ptr b o) = s ++ 0 :: r ->
+  Forall (fun c : N => c <> 0) s ->
+  (b < length m)%nat ->
+  (length (s ++ 0%N :: r) < fuel)%nat ->
+  exists m' : memory,
+  src_printEscaped fuel m out (Ptr b o) = FOk (tt, m', out ++ tc_escape s) /\
+  (exists extra : list (list N), m' = m ++ extra) /\ mem_ok m'.
+Proof. exact src_printEscaped_spec. Qed.
+Print Assumptions C20_src_printEscaped_spec.
+
+Theorem C20_src_printEscaped_spec_tight :
+  forall (fuel : nat) (m : memory) (out : list N) (b : nat) (o : Z) (s r : list N),
+  mem_ok m ->
+  view m (Ptr b o) = s ++ 0 :: r ->
+  Forall (fun c : N => c <> 0) s ->
+  (b < length m)%nat ->
+  (length s < fuel)%nat ->
+  exists m' : memory,
+  src_printEscaped fuel m out (Ptr b o) = FOk (tt, m', out ++ tc_escape s) /\
+  (exists extra : list (list N), m' = m ++ extra) /\ mem_ok m'.
+Proof. exact src_printEscaped_spec_tight. Qed.
+Print Assumptions C20_src_printEscaped_spec_tight.
